@@ -991,6 +991,28 @@ func (w *Walker) step(fr *frame, in ssa.Instruction) {
 	case *ssa.Index:
 		base := w.val(fr, x.X)
 		idx := w.val(fr, x.Index)
+		// s[a:b][k] of a text is s[a+k] (texts are immutable; whether k is inside the piece is P1's concern)
+		for isStringType(base.Typ) && base.Op == "slice" && len(base.Args) >= 2 && base.Args[0] != nil && isStringType(base.Args[0].Typ) {
+			lo := int64(0)
+			if base.Args[1] != nil {
+				l, ok := base.Args[1].Int64()
+				if !ok {
+					break
+				}
+				lo = l
+			}
+			k, ok := idx.Int64()
+			if !ok {
+				break
+			}
+			if w.Finite {
+				if _, known := w.charsOf(base); known {
+					break // the characters of the piece are known: handled below
+				}
+			}
+			idx = mkInt(lo+k, types.Typ[types.Int])
+			base = base.Args[0]
+		}
 		if n, ok := idx.Int64(); ok {
 			if w.Finite && isStringType(base.Typ) && n >= 0 && (base.Op == "bin" || base.Op == "slice" || base.Op == "strv" || base.Op == "conv") {
 				// a character of a text assembled from pieces whose characters are known ("0"+s, s[a:b], string(bytes))
@@ -1372,6 +1394,46 @@ func foldCmp(op token.Token, a, b *Term) (bool, bool) {
 	return constant.Compare(a.C, op, b.C), true
 }
 
+// addOffsets: a+b for index arithmetic, with the constants of nested sums gathered: (e+4)+1 is e+5.
+func (w *Walker) addOffsets(a, b *Term) *Term {
+	split := func(t *Term) (*Term, int64) {
+		if t == nil {
+			return nil, 0
+		}
+		if n, ok := t.Int64(); ok {
+			return nil, n
+		}
+		if t.Op == "bin" && t.Name == "+" && len(t.Args) == 2 {
+			if n, ok := t.Args[1].Int64(); ok {
+				return t.Args[0], n
+			}
+			if n, ok := t.Args[0].Int64(); ok {
+				return t.Args[1], n
+			}
+		}
+		return t, 0
+	}
+	ta, ca := split(a)
+	tb, cb := split(b)
+	c := ca + cb
+	var sym *Term
+	switch {
+	case ta != nil && tb != nil:
+		sym = w.binop(token.ADD, ta, tb, types.Typ[types.Int])
+	case ta != nil:
+		sym = ta
+	case tb != nil:
+		sym = tb
+	}
+	if sym == nil {
+		return mkInt(c, types.Typ[types.Int])
+	}
+	if c == 0 {
+		return sym
+	}
+	return w.binop(token.ADD, sym, mkInt(c, types.Typ[types.Int]), types.Typ[types.Int])
+}
+
 func (w *Walker) indexAddr(base, idx *Term, x *ssa.IndexAddr, fn *ssa.Function, depth int) *Term {
 	// s[lo:hi][i] is the element s[lo+i] of the underlying storage (whether i is inside the view is P1's concern)
 	if base.Op == "slice" && len(base.Args) >= 2 && base.Args[0] != nil && !isStringType(base.Args[0].Typ) {
@@ -1382,7 +1444,7 @@ func (w *Walker) indexAddr(base, idx *Term, x *ssa.IndexAddr, fn *ssa.Function, 
 			} else if n, ok := idx.Int64(); ok && n == 0 {
 				nidx = lo
 			} else {
-				nidx = w.binop(token.ADD, lo, idx, types.Typ[types.Int])
+				nidx = w.addOffsets(lo, idx)
 			}
 		}
 		return w.indexAddr(base.Args[0], nidx, x, fn, depth)
@@ -1535,6 +1597,31 @@ func (w *Walker) slice(fr *frame, x *ssa.Slice) *Term {
 				return mkConst(constant.MakeString(s[loN:h]), x.Type())
 			}
 		}
+	}
+	// a view of a view of symbolic storage: s[a:b][c:d] is s[a+c:a+d] (s[a:][c:d] likewise; without d the outer bound stays)
+	if base.Op == "slice" && len(base.Args) >= 3 && base.Args[0] != nil && !isStringType(base.Args[0].Typ) && mx == nil && (len(base.Args) < 4 || base.Args[3] == nil) {
+		blo := base.Args[1]
+		add := func(a, b *Term) *Term {
+			switch {
+			case a == nil:
+				return b
+			case b == nil:
+				return a
+			}
+			if n, ok := a.Int64(); ok && n == 0 {
+				return b
+			}
+			if n, ok := b.Int64(); ok && n == 0 {
+				return a
+			}
+			return w.addOffsets(a, b)
+		}
+		nlo := add(blo, lo)
+		nhi := base.Args[2]
+		if hi != nil {
+			nhi = add(blo, hi)
+		}
+		return &Term{Op: "slice", Args: []*Term{base.Args[0], nlo, nhi, nil}, Typ: x.Type()}
 	}
 	return &Term{Op: "slice", Args: []*Term{base, lo, hi, mx}, Typ: x.Type()}
 }
